@@ -237,7 +237,59 @@ def k_sp_pack(ctx, shf, sec, data, apid, count, version):
             ctx.note(f"{type(a).__name__} == <{type(foreign).__name__}> -> {e!r}")
 
 
-KINDS = {"pack": k_pack, "unpack": k_unpack, "refuse": k_refuse, "words": k_words, "sp_pack": k_sp_pack}
+def k_hdr_history(ctx, seed):
+    """One header object that is packed, compared and changed through its documented setters (in-range values) in any order:
+    after every step pack() is the encoding of the current field values and decodes back to them."""
+    import random
+    sp = _imp()
+    r = random.Random(f"hdrh/{seed}")
+    case = {"k": "hdr_history", "seed": seed}
+    ctx.case("hdr_history", seed, sample=case)
+    f = {"version": r.getrandbits(3), "ptype": r.getrandbits(1), "shf": r.getrandbits(1), "apid": r.getrandbits(11), "flags": r.getrandbits(2), "count": r.getrandbits(14),
+         "length": r.getrandbits(16)}
+    h = sp.SpacePacketHeader(sp.PacketType(f["ptype"]), f["apid"], f["count"], f["length"], bool(f["shf"]), sp.SequenceFlags(f["flags"]), f["version"])
+    if r.random() < 0.3:
+        h = sp.SpacePacketHeader.unpack(bytes(h.pack()))
+    trail = []
+    for step in range(r.randrange(2, 10)):
+        op = r.choice(("pack", "eq", "packet_type", "sec_header_flag", "apid", "seq_count", "seq_flags", "data_len", "pack"))
+        trail.append(op)
+        if op == "pack":
+            h.pack()
+        elif op == "eq":
+            h == sp.SpacePacketHeader.unpack(bytes(h.pack()))
+        elif op == "packet_type":
+            f["ptype"] = r.getrandbits(1)
+            h.packet_type = sp.PacketType(f["ptype"])
+        elif op == "sec_header_flag":
+            f["shf"] = r.getrandbits(1)
+            h.sec_header_flag = bool(f["shf"])
+        elif op == "apid":
+            f["apid"] = r.getrandbits(11)
+            h.apid = f["apid"]
+        elif op == "seq_count":
+            f["count"] = r.getrandbits(14)
+            h.seq_count = f["count"]
+        elif op == "seq_flags":
+            f["flags"] = r.getrandbits(2)
+            h.seq_flags = sp.SequenceFlags(f["flags"])
+        else:
+            f["length"] = r.getrandbits(16)
+            h.data_len = f["length"]
+        ctx.table("hdr_history_ops", op)
+        want = R.encode_header(f["version"], f["ptype"], f["shf"], f["apid"], f["flags"], f["count"], f["length"])
+        ok, got = attempt(lambda: bytes(h.pack()))
+        if not ctx.check("hdr.history", ok and got == want, "pack_differs_from_current_fields", "after:" + (next((t for t in reversed(trail) if t not in ("pack", "eq")), "none")),
+                         case, trail=trail, observed=got if ok else repr(got), expected=want):
+            return
+        u = sp.SpacePacketHeader.unpack(got)
+        views = (int(h.packet_type), int(bool(h.sec_header_flag)), h.apid, int(h.seq_flags), h.seq_count, h.data_len, h.packet_len, h.packet_id.raw(), h.packet_seq_control.raw())
+        exp = (f["ptype"], f["shf"], f["apid"], f["flags"], f["count"], f["length"], f["length"] + 7, (f["ptype"] << 12) | (f["shf"] << 11) | f["apid"], (f["flags"] << 14) | f["count"])
+        if not ctx.check("hdr.history", views == exp and u == h and h == u, "views_or_equality_differ_from_current_fields", "", case, trail=trail, observed=repr(views), expected=repr(exp)):
+            return
+
+
+KINDS = {"hdr_history": k_hdr_history, "pack": k_pack, "unpack": k_unpack, "refuse": k_refuse, "words": k_words, "sp_pack": k_sp_pack}
 
 
 # ---------------------------------------------------------------- workload
@@ -321,6 +373,8 @@ def run(ctx):
             for data in (None, "", "00", "0102030405"):
                 k_sp_pack(ctx, shf, sec if shf or sec is None else None, data, r.getrandbits(11), r.getrandbits(14),
                           r.getrandbits(3))
+    for j in range(ctx.n(3000, 200_000)):
+        k_hdr_history(ctx, ctx.seed * 1_000_003 + ctx.shard[0] * 100_003 + j)
     # informational: setters and the masking helper
     sp = _imp()
     h = sp.SpacePacketHeader(sp.PacketType.TM, 1, 1, 1)
